@@ -817,13 +817,23 @@ func (u *Unit) sortSliceModel(st *State, e *ast.CallExpr, ca callArgs) (Term, bo
 		if f1 == "" {
 			return elem, sl.Elem(), true
 		}
-		stt, ok := sl.Elem().Underlying().(*types.Struct)
+		et := sl.Elem()
+		if pt, isPtr := et.Underlying().(*types.Pointer); isPtr {
+			// []*T sorted by a field of the pointee: the key is read from the current cell heap (the comparator
+			// dereferences every element, so the elements are non-nil wherever the real sort returns)
+			if _, isStruct := pt.Elem().Underlying().(*types.Struct); !isStruct {
+				return "", nil, false
+			}
+			cell := u.loadCell(st, pt.Elem(), elem)
+			elem, et = cell.S, pt.Elem()
+		}
+		stt, ok := et.Underlying().(*types.Struct)
 		if !ok {
 			return "", nil, false
 		}
 		for i := 0; i < stt.NumFields(); i++ {
 			if stt.Field(i).Name() == f1 {
-				return u.fieldGet(Term{S: elem, T: sl.Elem()}, i).S, stt.Field(i).Type(), true
+				return u.fieldGet(Term{S: elem, T: et}, i).S, stt.Field(i).Type(), true
 			}
 		}
 		return "", nil, false
@@ -1257,6 +1267,8 @@ func (u *Unit) externalCall(st *State, e *ast.CallExpr, callee *types.Func, ca c
 	rs := u.freshResults(st, sig, "x_"+callee.Name())
 	// assumed result ranges of dependency functions (read off their source; listed in the trusted base)
 	switch callee.FullName() {
+	case "(*sync.WaitGroup).Wait":
+		u.resync(st)
 	case "(*github.com/gagliardetto/binary.Decoder).ReadCompactU16":
 		// compact-u16.go: returns 0 with an error unless 0 <= ln <= math.MaxUint16
 		if len(rs) >= 1 && !c.bv {
@@ -1379,10 +1391,17 @@ func (u *Unit) heldTerm(st *State, key string) string {
 	name := "held0_" + sanitize(key)
 	u.c.declareFun(name, "() Int")
 	u.c.declareRaw("heldrange_"+name, fmt.Sprintf("(assert (and (<= 0 %s) (<= %s 2)))", name, name))
+	if u.ct == nil && u.decl != nil {
+		// a function without a contract is entered with no lock of its package held: every static call of an uncontracted
+		// same-package function, and every call through a function value, made while a lock is held is itself a lock
+		// obligation of the caller (lock-call), and callbacks run by the runtime / net/http start with nothing held
+		u.c.declareRaw("heldentry_"+name, fmt.Sprintf("(assert (= %s 0))", name))
+	}
 	return name
 }
 
 func (u *Unit) lockOp(st *State, e *ast.CallExpr, op string, ca callArgs) {
+	u.resync(st)
 	key := u.lockKey(ca.recvExp)
 	cur := u.heldTerm(st, key)
 	g := "held:" + key
